@@ -3,7 +3,7 @@
 //! Writes a trace of frame / read events (validated by TLC against Trace_Compressed.tla) and the frames
 //! themselves (payload checked by an independent inflater in tools/check.py).
 use crate::ops::guarded;
-use crate::runner::{Dispatch, Report};
+use crate::runner::{bytes_of, Dispatch, Report};
 use bytes::BytesMut;
 use desert_core::{BinaryInput, BinaryOutput, DeserializationContext, OwnedInput, SerializationContext, SliceInput};
 use serde_json::{json, Value};
@@ -304,6 +304,10 @@ pub fn compress_case(case: &Value, _d: Dispatch, r: &mut Report) {
                 p += 1;
             }
             let payload = &f[p.min(n_f)..];
+            // level 0 writes stored blocks: the specification itself inflates those (Trace_Compressed!StoredEvent)
+            if level == 0 && d.len() <= 4096 {
+                writeln!(trace, "{}", json!({"ev": "stored", "d": d, "z": payload})).unwrap();
+            }
             // announced lengths: small, off by one, just above the reservation cap, plausible multiples of
             // the compressed length (an inflater can expand by at most ~1032:1), and the extremes
             let cl = payload.len() as u64;
@@ -346,4 +350,28 @@ pub fn compress_case(case: &Value, _d: Dispatch, r: &mut Report) {
     }
     trace.flush().unwrap();
     frames.flush().unwrap();
+}
+
+/// {"kind":"stored","cases":[{"d":[..],"z":[..],"blocks":[[announced, bytes],..]},..]}: compressed blocks whose payload
+/// is a stream of stored blocks built by the specification (MC_Deflate): splits and padding bits the library's writer
+/// never produces, and announced lengths that disagree with the content.  Every source must return the content and
+/// stop after the block.
+pub fn stored_case(case: &Value, _d: Dispatch, r: &mut Report) {
+    for c in case["cases"].as_array().unwrap() {
+        let d = bytes_of(&c["d"]);
+        for blk in c["blocks"].as_array().unwrap() {
+            let mut b = bytes_of(&blk[1]);
+            let n = b.len();
+            b.extend([0xAB, 0x80]);
+            for s in 0..3 {
+                r.count("stored_block");
+                match read_on(s, &b) {
+                    Ok(res) if res.ok && res.data == d && res.consumed == n => {}
+                    Ok(res) => r.finding("stored_block", &["C16"], json!({"content": d.len(), "splits": c["cuts"], "padding": c["pads"], "announced": blk[0], "source": SOURCES[s],
+                        "block_head": &b[..b.len().min(24)], "ok": res.ok, "produced": res.data.len(), "consumed": res.consumed, "block_len": n})),
+                    Err(p) => r.finding("stored_block", &["C16", "C05"], json!({"content": d.len(), "splits": c["cuts"], "announced": blk[0], "panic": p})),
+                }
+            }
+        }
+    }
 }
